@@ -8,6 +8,9 @@ INT_MIN = -2 ** 31
 WEIRD_INTS = [0, 1, 2, 3, -1, -2, 5, 7, 100, 255, 256, 10000, 65535, INT_MAX, INT_MIN, INT_MAX - 1, -7, 9]
 
 
+OTHER_G = Grammar([("a", 97), ("'+'", 43)], [Rule("E", ["E", "'+'", "a"], "p", 1, [0, 2]), Rule("E", ["a"], None, 0, [0])])
+
+
 def rname(rng, n=None, ascii_only=False):
     n = n if n is not None else rng.choice([1, 2, 10, 50, 150, 170, 180, 199, 200, 201, 250, 300, 400])
     if ascii_only or rng.random() < 0.5:
@@ -197,6 +200,22 @@ def gen_case(rng, cid, pool_texts):
     L += ["err 0", "free 0"]
     if amode in (0, 2):
         L.append("ftree 0 %d" % rng.randrange(2))
+    # another object's life around the hostile calls: the library's file-scope "current grammar" then refers to
+    # a different object -- live, or already freed -- when the call under test starts
+    r = rng.random()
+    if r < 0.3:
+        other = ["new 1"]
+        if rng.random() < 0.7:
+            other += emit_define(OTHER_G, 1, 1) + ["k 97 43 97", "parse 1 2 n"]
+        pos = rng.randrange(2, len(L))           # after "new 0", anywhere before or between the calls under test
+        while pos > 2 and L[pos - 1].split()[0] in ("k", "krep", "kend", "t", "r"):
+            pos -= 1                             # not between a token list / callback data and the call using it
+        if r < 0.15:
+            L = L[:pos] + other + ["free 1"] + L[pos:]
+            feats.add("after_another_object_was_freed")
+        else:
+            L = L[:pos] + other + L[pos:] + ["err 1", "free 1"]
+            feats.add("another_object_alive")
     return kind, L, feats
 
 
